@@ -86,3 +86,9 @@ Print Assumptions C01_fuel_dispatch.
 Print Assumptions C01_maximize.
 Print Assumptions C01_minimize.
 Print Assumptions C01_direction.
+
+(* the text-accepting entry points this property quantifies over are the ones the model and the harness know: the regenerated list of every `pub fn`, trait impl and exported macro of the four library crates equals the list the model was written against (proofs/ApiSurfaceProofs.v) *)
+From UL Require ApiSurface ApiSurfaceProofs.
+Theorem C01_entry_points_are_the_modelled_ones : ApiSurface.api_surface = ApiSurfaceProofs.modelled_api.
+Proof. exact ApiSurfaceProofs.api_surface_is_the_modelled_one. Qed.
+Print Assumptions C01_entry_points_are_the_modelled_ones.
